@@ -155,10 +155,15 @@ def rb(cx):
         for x in nexts:
             emits += 1
             # dominated by the false edge of is_empty on the emitted vector's cell
-            checks = [c for c in g.nodes if c['kind'] == 'call' and c['name'].rsplit('::', 1)[-1] == 'is_empty' and recv_class(c['args'][0]).endswith('.data')]
+            # the vector that is emitted: whatever the emitted value was taken out of (a field of the buffering observer, by any name)
+            from ..expr import walk as _walk
+            vec_cls = {recv_class(e[2][0]) for a in x['args'][1:] for e in _walk(a) if e[0] == 'call' and e[1] in ('std::mem::take', 'std::mem::replace') and e[2]}
+            if not vec_cls:
+                vec_cls = {recv_class(a) for a in x['args'][1:]}
+            checks = [c for c in g.nodes if c['kind'] == 'call' and c['name'].rsplit('::', 1)[-1] == 'is_empty' and c['args'] and recv_class(c['args'][0]) in vec_cls]
             cv = {strip(c['value']) for c in checks}
 
-            lens = {strip(c['value']) for c in g.nodes if c['kind'] == 'call' and c['name'].rsplit('::', 1)[-1] == 'len' and c['args'] and recv_class(c['args'][0]).endswith('.data')}
+            lens = {strip(c['value']) for c in g.nodes if c['kind'] == 'call' and c['name'].rsplit('::', 1)[-1] == 'len' and c['args'] and recv_class(c['args'][0]) in vec_cls}
 
             def len_guard(d, v):
                 """truth of `len(data) >= 1` implied by taking edge v of a comparison of len(data) with a constant, or None"""
